@@ -246,6 +246,11 @@ func (s *CDX) dependencies(ctx context.Context, bom *sbom.Document) ([]cdx.Depen
 		case sbom.Edge_contains:
 			// Make sure we have the target component
 			for _, targetID := range e.To {
+				// A component cannot be nested inside itself: the component
+				// tree would become cyclic and can never be rendered.
+				if targetID == e.From {
+					continue
+				}
 				state.addedDict[targetID] = struct{}{}
 				if _, ok := state.componentsDict[targetID]; !ok {
 					return nil, fmt.Errorf("unable to locate node %s", targetID)
